@@ -162,7 +162,7 @@ struct __attribute__((packed)) TrackedT
         g_ledger.construct(this, sizeof(TrackedT));
     }
 
-    TrackedT(TrackedT&& o) noexcept
+    TrackedT(TrackedT&& o) noexcept(!CanThrow)  // never throws; the specification alone selects library paths
     {
         check_source(o, "move-construct-from");
         id = o.id;
